@@ -89,3 +89,42 @@ def df_subset(inp, W):
     else:
         raise ValueError(m)
     return {"out": out, "recv": data, "alias": _frame_alias(W, out, data)}
+
+# ---------------------------------------------------------------------------- C03 sort
+
+@op
+def df_sort(inp, W):
+    data = inp["data"]
+    out = data.sort(**{name: d for name, d in inp["by"]})
+    return {"out": out, "recv": data, "alias": _frame_alias(W, out, data)}
+
+# ---------------------------------------------------------------------------- C04 grouping
+
+@op
+def df_group(inp, W):
+    data = inp["data"]
+    by = inp["by"]
+    mode = inp["mode"]
+    di = W.di
+    if mode == "aggregate":
+        seen = []
+        def probe(d):
+            seen.append([x for x in d.rid])
+            return d.nrow
+        out = data.group_by(*by).aggregate(k=probe, n=di.count())
+        return {"out": out, "seen": seen}
+    if mode == "count":
+        return {"out": data.count(*by)}
+    if mode == "split":
+        return {"out": [list(x) for x in data.split(*by)]}
+    if mode == "modify":
+        out = data.group_by(*by).modify(size=lambda d: d.nrow, first=lambda d: d.rid[0])
+        return {"out": out}
+    if mode == "helper":
+        out = data.group_by(*by).aggregate(
+            a1=di.mean("v"), a2=lambda d: di.mean(d.v),
+            b1=di.max("v"), b2=lambda d: di.max(d.v),
+            c1=di.first("v"), c2=lambda d: di.first(d.v),
+            d1=di.count(), d2=lambda d: di.count(d.v))
+        return {"out": out}
+    raise ValueError(mode)
